@@ -21,8 +21,34 @@ def make_options(tmpdir=None, **kw):
     return tdgl.SolverOptions(**base)
 
 
-def traced_solve(device, options, A=0.0, currents=None, eps=1.0, seed_solution=None,
-                 on_step=None, before_step=None, resolve=0, between=None):
+_TRACED = [0]
+
+
+def traced_solve(*args, **kwargs):
+    """_traced_solve, and - environment form - every third call runs the way an application that configured logging at DEBUG
+    level (own handler on the root and "solver" loggers) would see it: what is validated, computed and recorded must not
+    depend on what is logged."""
+    _TRACED[0] += 1
+    if _TRACED[0] % 3:
+        return _traced_solve(*args, **kwargs)
+    import io
+    import logging
+    lg_root, lg_solver = logging.getLogger(), logging.getLogger("solver")
+    old = (lg_root.level, lg_solver.level)
+    hdl = logging.StreamHandler(io.StringIO())
+    lg_root.addHandler(hdl)
+    lg_root.setLevel(logging.DEBUG)
+    lg_solver.setLevel(logging.DEBUG)
+    try:
+        return _traced_solve(*args, **kwargs)
+    finally:
+        lg_root.removeHandler(hdl)
+        lg_root.setLevel(old[0])
+        lg_solver.setLevel(old[1])
+
+
+def _traced_solve(device, options, A=0.0, currents=None, eps=1.0, seed_solution=None,
+                  on_step=None, before_step=None, resolve=0, between=None):
     """Run tdgl's solver; on_step(solver, state, kwargs, result) is called after every update."""
     from tdgl.solver.solver import TDGLSolver
     solver = TDGLSolver(device=device, options=options, applied_vector_potential=A,
